@@ -842,4 +842,194 @@ theorem mem_jobKeys_of_mem_jobEntry (parse : ParseId) (j : List Str × Params) (
     · exact hk
     · rw [get_of_not_mem_keys r.1 k hk] at h; simp at h
 
+/-! ## several files, one parameter set (audit findings B2, B3) -/
+
+/-- the arguments `pepMapSingle` hands to `pepMapFile` for a parameter set whose enzyme is `r` -/
+def argsOf (r : EnzymeRule) (p : Params) (parse : ParseId) : MapArgs :=
+  { rule := r, db := p.db, minL := p.minL, maxL := p.maxL, mode := modeOf p.digestion, mc := p.mc, met := p.met,
+    useHash := p.useHash, special := p.special, parse := parse }
+
+/-- the database of several files under one parameter set: the records (targets and generated decoys) of the files
+    in file order, inside a file in record order -/
+def dbRecords (parse : ParseId) (p : Params) (files : List (List Str)) : List (Str × Str) :=
+  files.flatMap (fun f => (readFasta p.db p.special parse f).1)
+
+theorem pepMapSingle_args (parse : ParseId) (p : Params) (r : EnzymeRule) (hr : lookupEnzyme p.enzyme = some r)
+    (lines : List Str) : pepMapSingle parse p lines = pepMapFile (argsOf r p parse) lines := by
+  simp only [pepMapSingle, hr, argsOf]
+
+theorem jobs_one (files : List (List Str)) (p : Params) : jobs files [p] = files.map (fun f => (f, p)) := by
+  induction files with
+  | nil => rfl
+  | cons f files ih =>
+    simp only [jobs, List.flatMap_cons, List.map_cons, List.map_nil, List.cons_append, List.nil_append] at ih ⊢
+    rw [ih]
+
+theorem setKey_of_not_mem (d : SeqMap) (k v : Str) (h : k ∉ d.map (·.1)) : setKey d k v = d ++ [(k, v)] := by
+  induction d with
+  | nil => rfl
+  | cons hd r ih =>
+    obtain ⟨a, w⟩ := hd
+    simp only [List.map_cons, List.mem_cons, not_or] at h
+    have hne : ¬ a = k := fun e => h.1 e.symm
+    simp only [setKey, hne, if_false, List.cons_append]
+    rw [ih h.2]
+
+theorem foldl_setKey_append (tmp : SeqMap) : ∀ (acc : SeqMap), (acc.map (·.1) ++ tmp.map (·.1)).Nodup →
+    tmp.foldl (fun d kv => setKey d kv.1 kv.2) acc = acc ++ tmp := by
+  induction tmp with
+  | nil => intro acc _; simp
+  | cons hd r ih =>
+    intro acc hnd
+    obtain ⟨a, w⟩ := hd
+    have ha : a ∉ acc.map (·.1) := by
+      intro hmem
+      have := (List.nodup_append.mp hnd).2.2 a hmem a (by simp)
+      exact this rfl
+    simp only [List.foldl_cons]
+    rw [setKey_of_not_mem acc a w ha, ih]
+    · simp
+    · simpa [List.append_assoc] using hnd
+
+/-- with identifiers that are new and pairwise distinct the record loop appends the records to the sequence map -/
+theorem mapRecords_seqs_eq (a : MapArgs) : ∀ (recs : List (Str × Str)) (m : PMap) (sm : SeqMap) (res : PMap × SeqMap),
+    mapRecords a recs (m, sm) = .ok res → (sm.map (·.1) ++ recs.map (·.1)).Nodup → res.2 = sm ++ recs := by
+  intro recs
+  induction recs with
+  | nil =>
+    intro m sm res h _
+    simp only [mapRecords, Except.ok.injEq] at h
+    subst h; simp
+  | cons r recs ih =>
+    intro m sm res h hnd
+    obtain ⟨pid, seq⟩ := r
+    simp only [mapRecords] at h
+    split at h
+    · simp at h
+    · have hp : pid ∉ sm.map (·.1) := by
+        intro hmem
+        exact (List.nodup_append.mp hnd).2.2 pid hmem pid (by simp) rfl
+      rw [setKey_of_not_mem sm pid seq hp] at h
+      rw [ih _ _ _ h]
+      · simp
+      · simpa [List.append_assoc] using hnd
+
+theorem fromParamsGo_jobs_ok (parse : ParseId) : ∀ (js : List (List Str × Params)) (acc : PMap × SeqMap)
+    (res : PMap × SeqMap), fromParamsGo parse js acc = .ok res →
+      ∀ j ∈ js, ∃ r, pepMapSingle parse j.2 j.1 = .ok r := by
+  intro js
+  induction js with
+  | nil => intro _ _ _ j hj; cases hj
+  | cons j0 js ih =>
+    intro acc res h j hj
+    obtain ⟨f, p⟩ := j0
+    obtain ⟨m, sm⟩ := acc
+    simp only [fromParamsGo] at h
+    split at h
+    · simp at h
+    · rename_i tm tsm hs
+      rcases List.mem_cons.mp hj with rfl | hj
+      · exact ⟨_, hs⟩
+      · exact ih _ _ h j hj
+
+/-- the sequence map after the merge over several files with one hash-key parameter set -/
+theorem fromParamsGo_seqs_eq (parse : ParseId) (p : Params) (r : EnzymeRule) (hr : lookupEnzyme p.enzyme = some r)
+    (hh : p.useHash = true) : ∀ (files : List (List Str)) (m : PMap) (sm : SeqMap) (res : PMap × SeqMap),
+    fromParamsGo parse (files.map (fun f => (f, p))) (m, sm) = .ok res →
+    (sm.map (·.1) ++ (dbRecords parse p files).map (·.1)).Nodup → res.2 = sm ++ dbRecords parse p files := by
+  intro files
+  induction files with
+  | nil =>
+    intro m sm res h _
+    simp only [List.map_nil, fromParamsGo, Except.ok.injEq] at h
+    subst h; simp [dbRecords]
+  | cons f files ih =>
+    intro m sm res h hnd
+    simp only [List.map_cons, fromParamsGo] at h
+    split at h
+    · simp at h
+    · rename_i tm tsm hs
+      simp only [hh, if_true] at h
+      rw [pepMapSingle_args parse p r hr] at hs
+      obtain ⟨hm, _⟩ := pepMapFile_ok _ _ _ hs
+      have hdb : dbRecords parse p (f :: files) = (readFasta p.db p.special parse f).1 ++ dbRecords parse p files := by
+        simp [dbRecords]
+      rw [hdb] at hnd ⊢
+      simp only [List.map_append] at hnd
+      have hrecs : (readFasta (argsOf r p parse).db (argsOf r p parse).special (argsOf r p parse).parse f).1 =
+          (readFasta p.db p.special parse f).1 := rfl
+      rw [hrecs] at hm
+      have htsm : tsm = (readFasta p.db p.special parse f).1 := by
+        have := mapRecords_seqs_eq _ _ _ _ _ hm (by
+          simp only [List.map_nil, List.nil_append]
+          exact ((List.nodup_append.mp hnd).2.1.sublist (List.sublist_append_left _ _)))
+        simpa using this
+      subst htsm
+      have hmerge : mergeSeqs sm (readFasta p.db p.special parse f).1 = sm ++ (readFasta p.db p.special parse f).1 := by
+        unfold mergeSeqs
+        apply foldl_setKey_append
+        rw [← List.append_assoc] at hnd
+        exact hnd.sublist (List.sublist_append_left _ _)
+      rw [hmerge] at h
+      rw [ih _ _ _ h]
+      · simp
+      · simpa [List.append_assoc] using hnd
+
+theorem lookupSeq_of_mem (sm : SeqMap) (hnd : (sm.map (·.1)).Nodup) (r : Str × Str) (hr : r ∈ sm) :
+    lookupSeq sm r.1 = some r.2 := by
+  induction sm with
+  | nil => cases hr
+  | cons hd t ih =>
+    simp only [List.map_cons, List.nodup_cons] at hnd
+    rcases List.mem_cons.mp hr with rfl | hr
+    · simp [lookupSeq, List.find?]
+    · have hne : ¬ hd.1 = r.1 := by
+        intro e
+        exact hnd.1 (e ▸ List.mem_map.mpr ⟨r, hr, rfl⟩)
+      have := ih hnd.2 hr
+      simp only [lookupSeq] at this ⊢
+      simp only [List.find?, hne, decide_false]
+      exact this
+
+/-- the merged map of several files under ONE parameter set, entry by entry: the identifiers, in database order,
+    of the records whose digest yields the key -/
+theorem fromParams_one_get (parse : ParseId) (files : List (List Str)) (p : Params) (r : EnzymeRule)
+    (hr : lookupEnzyme p.enzyme = some r) (res : PMap × SeqMap) (h : fromParams parse files [p] = .ok res) (k : Str) :
+    get res.1 k =
+      ((dbRecords parse p files).filter (fun x => decide (k ∈ keysOf (argsOf r p parse) x.2))).map (·.1) := by
+  have hjobs := jobs_one files p
+  have hget := fromParamsGo_spec parse (jobs files [p]) [] [] res h k
+  have hok := fromParamsGo_jobs_ok parse _ _ _ h
+  rw [hjobs] at hget hok
+  rw [hget]
+  simp only [get, List.nil_append, dbRecords]
+  clear hget h hjobs
+  induction files with
+  | nil => simp
+  | cons f files ih =>
+    simp only [List.map_cons, List.flatMap_cons, List.filter_append, List.map_append]
+    rw [ih (fun j hj => hok j (List.mem_cons_of_mem _ hj))]
+    congr 1
+    obtain ⟨r1, hr1⟩ := hok (f, p) (by simp)
+    simp only at hr1
+    simp only [jobEntry, hr1]
+    rw [pepMapSingle_args parse p r hr] at hr1
+    obtain ⟨hm, _⟩ := pepMapFile_ok _ _ _ hr1
+    have := (mapRecords_spec _ _ _ _ _ hm).1 k
+    simp only [get, List.nil_append] at this
+    exact this
+
+/-- without a known enzyme only the empty file list gets through -/
+theorem fromParams_one_no_enzyme (parse : ParseId) (files : List (List Str)) (p : Params)
+    (hr : lookupEnzyme p.enzyme = none) (res : PMap × SeqMap) (h : fromParams parse files [p] = .ok res) :
+    files = [] ∧ res = ([], []) := by
+  cases files with
+  | nil =>
+    simp only [fromParams, jobs, List.flatMap_nil, fromParamsGo, Except.ok.injEq] at h
+    exact ⟨rfl, h.symm⟩
+  | cons f files =>
+    simp only [fromParams, jobs, List.flatMap_cons, List.map_cons, List.map_nil, List.cons_append, List.nil_append,
+      fromParamsGo, pepMapSingle, hr] at h
+    cases h
+
 end PgFdr.C09
